@@ -288,6 +288,95 @@ func ruleIdxUnits(c *Ctx) {
 			})
 		}
 	}
+	// functions outside ProtoArray that position into a per-node delta slice (the vote store): the slice has one entry per
+	// live node, so a NodeIndex (absolute) must be made relative to the lowest live index before it is used as a position
+	for _, file := range pk.Syntax {
+		for _, d := range file.Decls {
+			fd, ok := d.(*ast.FuncDecl)
+			if !ok || fd.Body == nil {
+				continue
+			}
+			if fd.Recv != nil {
+				if nt := namedOf(info.TypeOf(fd.Recv.List[0].Type)); nt != nil && nt.Obj().Name() == "ProtoArray" {
+					continue
+				}
+			}
+			name := funcName(fd)
+			// running minima: locals lowered inside a range over a map[..]NodeIndex under `v < m`
+			minOf := map[types.Object]string{} // local -> ranged map expression
+			ast.Inspect(fd.Body, func(n ast.Node) bool {
+				rs, ok := n.(*ast.RangeStmt)
+				if !ok || rs.Value == nil {
+					return true
+				}
+				if _, isMap := info.TypeOf(rs.X).Underlying().(*types.Map); !isMap {
+					return true
+				}
+				vid, ok := rs.Value.(*ast.Ident)
+				if !ok {
+					return true
+				}
+				ast.Inspect(rs.Body, func(m ast.Node) bool {
+					ifs, ok := m.(*ast.IfStmt)
+					if !ok {
+						return true
+					}
+					be, ok := ast.Unparen(ifs.Cond).(*ast.BinaryExpr)
+					if !ok || be.Op != token.LSS {
+						return true
+					}
+					x, ok1 := ast.Unparen(be.X).(*ast.Ident)
+					y, ok2 := ast.Unparen(be.Y).(*ast.Ident)
+					if !ok1 || !ok2 || info.Uses[x] != info.Defs[vid] {
+						return true
+					}
+					for _, st := range ifs.Body.List {
+						if as, ok := st.(*ast.AssignStmt); ok && len(as.Lhs) == 1 && len(as.Rhs) == 1 {
+							if l, ok := as.Lhs[0].(*ast.Ident); ok && info.Uses[l] == info.Uses[y] {
+								if r, ok := ast.Unparen(as.Rhs[0]).(*ast.Ident); ok && info.Uses[r] == info.Defs[vid] {
+									minOf[info.Uses[y]] = types.ExprString(rs.X)
+								}
+							}
+						}
+					}
+					return true
+				})
+				return true
+			})
+			ast.Inspect(fd.Body, func(n ast.Node) bool {
+				ix, ok := n.(*ast.IndexExpr)
+				if !ok {
+					return true
+				}
+				sl, ok := info.TypeOf(ix.X).Underlying().(*types.Slice)
+				if !ok {
+					return true
+				}
+				if nt := namedOf(sl.Elem()); nt == nil || nt.Obj().Name() != "SignedGwei" {
+					return true
+				}
+				nSites++
+				key := "proto." + name + ":" + types.ExprString(ix.X) + "[" + types.ExprString(ix.Index) + "]"
+				if !isNodeIndexType(info.TypeOf(ix.Index)) {
+					c.ok(key, ix.Pos(), "relative position")
+					return true
+				}
+				be, ok := ast.Unparen(ix.Index).(*ast.BinaryExpr)
+				if !ok || be.Op != token.SUB {
+					c.bad(key, ix.Pos(), "%s has one entry per live node but is positioned with the absolute NodeIndex %s: wrong node (or out of range) once anything was pruned", types.ExprString(ix.X), types.ExprString(ix.Index))
+					return true
+				}
+				if sub, ok := ast.Unparen(be.Y).(*ast.Ident); ok {
+					if m, ok := minOf[info.Uses[sub]]; ok {
+						c.ok(key, ix.Pos(), "relative to %s, the minimum over %s (all absolute indices in that map are >= it)", sub.Name, m)
+						return true
+					}
+				}
+				c.bad(key, ix.Pos(), "%s is subtracted from the index, but it is not shown to be the lowest live node index", types.ExprString(be.Y))
+				return true
+			})
+		}
+	}
 	c.stat("index_and_store_sites", nSites)
 }
 
